@@ -16,10 +16,17 @@ Definition range_eqb (a b : range) : bool := (fst a =? fst b) && (snd a =? snd b
 Definition range_cmp (a b : range) : comparison :=
   match fst a ?= fst b with Eq => snd a ?= snd b | c => c end.
 
-(* core.has_ignore_comment: some physical line that matches the ignore regex overlaps the range.
-   [ilines] = the (start,end) character ranges of the lines that carry an ignore comment. *)
+(* core.has_ignore_comment: some physical line that carries an ignore comment is touched by the range.
+   [ilines] = the (start,end) character ranges of the lines that carry an ignore comment.
+   A non-empty range touches a line when Range.overlaps says so.  An empty range (an insertion) touches the
+   line from its first column up to its terminator (repair 8992e08); an unterminated last line is handed
+   over with its end moved one past the text, so that an insertion at the very end of the text counts too
+   (no non-empty range of the text reaches that position, so nothing else changes). *)
+Definition touches_line (r l : range) : bool :=
+  if fst r =? snd r then (fst l <=? fst r) && (fst r <? snd l) else overlaps r l.
+
 Definition ignored (ilines : list range) (r : range) : bool :=
-  existsb (fun l => overlaps r l) ilines.
+  existsb (touches_line r) ilines.
 
 Section Sched.
 Variable T : Type.                       (* replacement text *)
